@@ -31,6 +31,7 @@ import (
 	"sync/atomic"
 	"testing"
 	"testing/synctest"
+	"unsafe"
 
 	igate "golang.org/x/net/internal/gate"
 	"pgregory.net/rapid"
@@ -123,6 +124,73 @@ func c29InBubble(f func() error) error {
 		return verdict
 	}
 	return berr
+}
+
+// c29RawGate gives access to the channels of either gate implementation (the two
+// structs have the same layout). It is used only by c29Flood.
+func c29RawGate(g c29Gate) *gate {
+	switch x := g.(type) {
+	case *c29QuicGate:
+		return &x.g
+	case *c29IntGate:
+		return (*gate)(unsafe.Pointer(&x.g))
+	}
+	return nil
+}
+
+// c29Flood is the clean-up after a verdict: it feeds tokens into (and takes surplus
+// tokens out of) a gate that may be broken until idle() reports that nobody is stuck
+// any more. The package's TestMain waits for leaked goroutines until the test binary
+// times out, so a failing case should not leave blocked goroutines behind. Best
+// effort; it never influences a verdict.
+func c29Flood(g *gate, rounds int, idle func() bool) bool {
+	for i := 0; i < rounds; i++ {
+		synctest.Wait()
+		if idle() {
+			return true
+		}
+		switch i % 3 {
+		case 0:
+			select {
+			case g.set <- struct{}{}:
+			default:
+			}
+		case 1:
+			select {
+			case g.unset <- struct{}{}:
+			default:
+			}
+		case 2:
+			select {
+			case <-g.set:
+			default:
+			}
+			select {
+			case <-g.unset:
+			default:
+			}
+		}
+	}
+	synctest.Wait()
+	return idle()
+}
+
+func (p *c29Pool) idle() bool {
+	for {
+		select {
+		case r := <-p.res:
+			p.busy[r.w] = false
+			continue
+		default:
+		}
+		break
+	}
+	for _, b := range p.busy {
+		if b {
+			return false
+		}
+	}
+	return true
 }
 
 // ---------------------------------------------------------------------------
@@ -421,11 +489,14 @@ func c29GateRun(c c29GateCase, r *vp.Rec) error {
 	}
 
 	fail := func(err error) error {
-		// best effort: let as many goroutines as possible go away
+		// best effort: let every goroutine go away
 		for w := range ws {
 			if ws[w].cancel != nil {
 				ws[w].cancel()
 			}
+		}
+		if c29Flood(c29RawGate(g), 12*n+12, pool.idle) {
+			pool.stop()
 		}
 		return err
 	}
@@ -741,6 +812,13 @@ func c29QueueRun(c c29QueueCase, r *vp.Rec) error {
 				ws[w].cancel()
 			}
 		}
+		synctest.Wait()
+		if !pool.idle() {
+			q.err = errors.New("c29: clean-up") // every other goroutine is blocked
+		}
+		if c29Flood(&q.gate, 12*n+12, pool.idle) {
+			pool.stop()
+		}
 		return err
 	}
 	for i, acts := range c.Sched {
@@ -854,11 +932,16 @@ func c29StressGate(c c29StressCase, r *vp.Rec) error {
 		g = q
 	}
 	var fail c29Failure
+	var abort atomic.Bool // clean-up after a verdict: everybody leaves
 	var inside atomic.Int32
 	var acquisitions atomic.Int64
-	counter := 0          // protected by the gate
-	shadow := c.InitSet   // protected by the gate: value passed to the last unlock
+	var lockersDone, othersDone, finalDone atomic.Int32
+	counter := 0        // protected by the gate
+	shadow := c.InitSet // protected by the gate: value passed to the last unlock
 	critical := func(who string, viaWait bool, set bool) {
+		if abort.Load() {
+			return
+		}
 		if !inside.CompareAndSwap(0, 1) {
 			fail.set("two goroutines are inside the gate at once (%s entered while another holds it)", who)
 		}
@@ -874,13 +957,11 @@ func c29StressGate(c c29StressCase, r *vp.Rec) error {
 		inside.Store(0)
 		g.unlock(set)
 	}
-	var lockers, others sync.WaitGroup
 	for i := 0; i < c.A; i++ {
-		lockers.Add(1)
 		go func(i int) {
-			defer lockers.Done()
+			defer lockersDone.Add(1)
 			x := c.Seed + uint32(i)*2654435761
-			for k := 0; k < c.Iter; k++ {
+			for k := 0; k < c.Iter && !abort.Load(); k++ {
 				x = x*1664525 + 1013904223
 				g.lock()
 				critical("lock", false, x>>31 == 1)
@@ -888,10 +969,9 @@ func c29StressGate(c c29StressCase, r *vp.Rec) error {
 		}(i)
 	}
 	for i := 0; i < c.B; i++ {
-		others.Add(1)
 		go func(i int) {
-			defer others.Done()
-			for k := 0; k < c.Iter; k++ {
+			defer othersDone.Add(1)
+			for k := 0; k < c.Iter && !abort.Load(); k++ {
 				ctx, cancel := context.WithCancel(context.Background())
 				if c.Cancel > 0 && (k+i)%c.Cancel == 0 {
 					go cancel()
@@ -907,10 +987,9 @@ func c29StressGate(c c29StressCase, r *vp.Rec) error {
 		}(i)
 	}
 	for i := 0; i < c.C; i++ {
-		others.Add(1)
 		go func() {
-			defer others.Done()
-			for k := 0; k < c.Iter; k++ {
+			defer othersDone.Add(1)
+			for k := 0; k < c.Iter && !abort.Load(); k++ {
 				if g.lockIfSet() {
 					critical("lockIfSet", false, true)
 				} else {
@@ -919,11 +998,38 @@ func c29StressGate(c c29StressCase, r *vp.Rec) error {
 			}
 		}()
 	}
-	lockers.Wait()
+	stuck := func(format string, a ...any) error {
+		err := fmt.Errorf(format, a...)
+		if fail.err != nil {
+			err = fail.err // the first broken invariant explains the hang
+		}
+		abort.Store(true)
+		c29Flood(c29RawGate(g), 16*(c.A+c.B+c.C)+16, func() bool {
+			return int(lockersDone.Load()) == c.A && int(othersDone.Load()) == c.B+c.C && finalDone.Load() == 1
+		})
+		return err
+	}
+	// Quiescence: every goroutine has finished or is durably blocked. A lock() caller
+	// can only be blocked while somebody holds the gate, and a holder never blocks, so
+	// all lockers must be through. Waiters may be parked on the unset condition.
+	synctest.Wait()
+	if n := int(lockersDone.Load()); n != c.A {
+		go finalDone.Store(1)
+		return stuck("%d of %d goroutines are blocked forever in lock() although nobody holds the gate (lost wake-up)", c.A-n, c.A)
+	}
 	// From here on the condition stays set: every remaining waiter must get through.
-	g.lock()
-	critical("final lock", false, true)
-	others.Wait()
+	go func() {
+		defer finalDone.Store(1)
+		g.lock()
+		critical("final lock", false, true)
+	}()
+	synctest.Wait()
+	if finalDone.Load() != 1 {
+		return stuck("lock() blocks forever although nobody holds the gate (lost wake-up)")
+	}
+	if n := int(othersDone.Load()); n != c.B+c.C {
+		return stuck("%d goroutines are blocked forever in waitAndLock although the gate is unlocked with the condition set (lost wake-up)", c.B+c.C-n)
+	}
 	if fail.err != nil {
 		return fail.err
 	}
@@ -944,16 +1050,17 @@ func c29StressQueue(c c29StressCase, r *vp.Rec) error {
 		r.Class("stress:queue-early-close")
 	}
 	var fail c29Failure
+	var abort atomic.Bool
 	var received atomic.Int64
+	var prodsDone, consDone, closerDone atomic.Int32
 	reached := make(chan struct{})
+	var reachedOnce sync.Once
 	accepted := make([]int, c.A) // per producer: number of puts that returned true
-	var prods, cons sync.WaitGroup
 	for p := 0; p < c.A; p++ {
-		prods.Add(1)
 		go func(p int) {
-			defer prods.Done()
+			defer prodsDone.Add(1)
 			refused := false
-			for s := 0; s < c.Iter; s++ {
+			for s := 0; s < c.Iter && !abort.Load(); s++ {
 				if q.put(p<<20 | s) {
 					if refused {
 						fail.set("producer %d: put accepted after an earlier put was refused", p)
@@ -967,14 +1074,13 @@ func c29StressQueue(c c29StressCase, r *vp.Rec) error {
 	}
 	got := make([][]int, c.B)
 	for i := 0; i < c.B; i++ {
-		cons.Add(1)
 		go func(i int) {
-			defer cons.Done()
+			defer consDone.Add(1)
 			// The number of cancelled gets is bounded, so that a consumer that can
-			// never get an item ends up durably blocked (deadlock detection) instead
-			// of retrying forever.
+			// never get an item ends up durably blocked (and is detected) instead of
+			// retrying forever.
 			budget := 2*c.Iter + 2
-			for k := 0; ; k++ {
+			for k := 0; !abort.Load(); k++ {
 				ctx, cancel := context.WithCancel(context.Background())
 				if c.Cancel > 0 && (k+i)%c.Cancel == 0 && budget > 0 {
 					budget--
@@ -987,23 +1093,46 @@ func c29StressQueue(c c29StressCase, r *vp.Rec) error {
 				case err == nil:
 					got[i] = append(got[i], v)
 					if received.Add(1) == int64(closeAt) {
-						close(reached)
+						reachedOnce.Do(func() { close(reached) })
 					}
 				case err == c29ErrStressClosed:
 					return
 				case done:
 					// cancelled: try again
 				default:
-					fail.set("get returned error %q although the queue is not closed and its context is not done", err)
+					if !abort.Load() {
+						fail.set("get returned error %q although the queue is not closed and its context is not done", err)
+					}
 					return
 				}
 			}
 		}(i)
 	}
-	<-reached
-	q.close(c29ErrStressClosed)
-	cons.Wait()
-	prods.Wait()
+	go func() {
+		defer closerDone.Add(1)
+		<-reached
+		if !abort.Load() {
+			q.close(c29ErrStressClosed)
+		}
+	}()
+	// Quiescence: producers never block for long, the consumers drain the queue, the
+	// closer closes it after closeAt items and every consumer leaves. Whoever is still
+	// there is blocked forever.
+	synctest.Wait()
+	if int(prodsDone.Load()) != c.A || int(consDone.Load()) != c.B || closerDone.Load() != 1 {
+		err := fmt.Errorf("blocked forever: %d of %d producers, %d of %d consumers, closer waiting: %v; %d of %d items received, %d needed before close (lost item or lost wake-up)",
+			c.A-int(prodsDone.Load()), c.A, c.B-int(consDone.Load()), c.B, closerDone.Load() != 1, received.Load(), total, closeAt)
+		if fail.err != nil {
+			err = fail.err
+		}
+		abort.Store(true)
+		reachedOnce.Do(func() { close(reached) })
+		q.err = c29ErrStressClosed // every other goroutine is blocked
+		c29Flood(&q.gate, 16*(c.A+c.B)+16, func() bool {
+			return int(prodsDone.Load()) == c.A && int(consDone.Load()) == c.B && closerDone.Load() == 1
+		})
+		return err
+	}
 	if fail.err != nil {
 		return fail.err
 	}
